@@ -15,7 +15,7 @@ import (
 
 var c05Floor = []string{"keys.1", "keys.2", "keys.3", "dir.asc", "dir.desc", "dir.mixed", "key.null", "key.computed-null", "key.alias", "key.alias.nonword", "key.alias.shadow", "key.table-qualified", "key.native", "reexec.window", "key.null.multi", "shape.dual", "key.str", "key.num", "ties", "limit.huge",
 	"limit.bare", "limit.beyond-int64", "limit.offset", "limit.comma", "limit.zero", "offset.beyond", "window.straddle", "window.inside", "window.noorder", "where",
-	"shape.distinct", "shape.agg-all", "shape.group", "shape.union", "shape.bigint", "shape.union-order", "shape.qualified", "shape.shrunk-offset"}
+	"shape.distinct", "shape.agg-all", "shape.group", "shape.union", "shape.bigint", "shape.union-order", "shape.qualified", "shape.shrunk-offset", "shape.distinct-star", "shape.union-star-order", "shape.agg-mixed"}
 
 func init() {
 	fw.Register(&fw.Prop{
@@ -425,7 +425,7 @@ func c05Order(c *fw.Case) {
 	}
 }
 
-var c05ShapeKinds = []string{"distinct", "agg-all", "group", "union", "bigint", "union-order", "qualified", "dual"}
+var c05ShapeKinds = []string{"distinct", "agg-all", "group", "union", "bigint", "union-order", "qualified", "dual", "distinct-star", "union-star-order", "agg-mixed"}
 
 // c05Shapes: the window is cut from the FINAL row sequence, also when that
 // sequence is shorter than the filtered source (DISTINCT, an all-aggregate
@@ -435,8 +435,22 @@ var c05ShapeKinds = []string{"distinct", "agg-all", "group", "union", "bigint", 
 func c05Shapes(c *fw.Case) {
 	kind := c05ShapeKinds[c.Idx%len(c05ShapeKinds)]
 	t := gen.RandTable(c.R, gen.TableSpec{Name: "t1", MinRows: 3, MaxRows: pick(c.Tier, 10, 24), NumCols: 2, StrCols: 2, BoolCols: 1, StrStyle: gen.Plain, PoolSize: 2 + c.Intn(2)})
-	doc := func() map[string]any { return DocOf(t) }
+	// t2 / t3: the rows without their row ids (whole rows repeat), in two orders
+	var t2, t3 []any
+	for i := range t.Rows {
+		pr := func(r map[string]any) map[string]any {
+			return map[string]any{"s1": r["s1"], "s2": r["s2"], "b1": r["b1"]}
+		}
+		t2 = append(t2, pr(t.Rows[i]))
+		t3 = append(t3, pr(t.Rows[len(t.Rows)-1-i]))
+	}
+	doc := func() map[string]any {
+		d := DocOf(t)
+		d["t2"], d["t3"] = val.Copy(t2), val.Copy(t3)
+		return d
+	}
 	src := len(t.Rows)
+	permOf := "" // the unordered query the ordered one must be a permutation of
 	var base string
 	sortedBy, sortedDesc := "", false // output column the un-windowed sequence must be sorted by
 	exact := true                     // the un-windowed sequence is deterministic
@@ -473,6 +487,25 @@ func c05Shapes(c *fw.Case) {
 			sortedBy = "k"
 			base = "SELECT x." + col + " AS k, x.rid FROM t1 x ORDER BY x." + col + map[bool]string{true: " DESC", false: ""}[sortedDesc]
 		}
+	case "distinct-star":
+		// whole rows repeat, not next to each other; the sort keys are some of the columns
+		keys := gen.Pick(c.R, []string{"s1", "s2", "b1", "s1, b1", "s2 DESC", "b1 DESC, s1"})
+		permOf = "SELECT DISTINCT * FROM t2"
+		base = permOf + " ORDER BY " + keys
+		sortedBy, sortedDesc = strings.Fields(strings.Split(keys, ",")[0])[0], strings.HasPrefix(keys, "s2 DESC") || strings.HasPrefix(keys, "b1 DESC")
+		exact = false
+	case "union-star-order":
+		keys := gen.Pick(c.R, []string{"s1", "s2", "b1", "s1 DESC"})
+		permOf = "SELECT * FROM t2 UNION SELECT * FROM t3"
+		base = permOf + " ORDER BY " + keys
+		sortedBy, sortedDesc = strings.Fields(keys)[0], strings.HasSuffix(keys, "DESC")
+		exact = false
+	case "agg-mixed":
+		// an aggregate next to plain columns: every row carries the total of all rows
+		base = "SELECT rid, s1, " + gen.Pick(c.R, []string{"COUNT(*) AS total", "SUM(n1) AS total", "MAX(n1) AS total"}) + " FROM t1"
+		if c.Chance(0.3) {
+			base += " WHERE n1 >= " + gen.SQLLit(t.Rows[c.Intn(len(t.Rows))]["n1"], 0)
+		}
 	case "dual":
 		// the one-row source: its window is a window over one row
 		base = gen.Pick(c.R, []string{"SELECT 1 AS x, 'y' AS y FROM dual", "SELECT (2 + 3) AS x FROM dual", "SELECT 1 AS x FROM dual WHERE 1 = 1"})
@@ -502,6 +535,14 @@ func c05Shapes(c *fw.Case) {
 	}
 	O := u.Rows
 	n := len(O)
+	if permOf != "" {
+		un := Run(doc(), permOf)
+		evals++
+		if !un.OK() || !val.SameMultiset(O, un.Rows) {
+			c.Violate("not-permutation", fmt.Sprintf("the ordered result (%d rows) is not a permutation of the unordered one (%d rows)", n, len(un.Rows)), map[string]any{"sql": base, "unordered_sql": permOf, "doc": doc(), "observed": val.Show(O), "unordered": un.Describe()})
+			return
+		}
+	}
 	if kind == "bigint" {
 		desc := strings.HasSuffix(base, "DESC")
 		if !val.SameMultiset(Rids(O), Rids(val.Copy(t.Array()).([]any))) {
@@ -592,8 +633,12 @@ func c05Shapes(c *fw.Case) {
 					return
 				}
 			} else {
+				keyCol := "big"
+				if kind != "bigint" {
+					keyCol = sortedBy
+				}
 				for i := range expect {
-					if val.Canon(val.Deref(w.Rows[i].(map[string]any)["big"])) != val.Canon(val.Deref(expect[i].(map[string]any)["big"])) {
+					if val.Canon(val.Deref(w.Rows[i].(map[string]any)[keyCol])) != val.Canon(val.Deref(expect[i].(map[string]any)[keyCol])) {
 						c.Violate("window-content", fmt.Sprintf("window element %d has a different key than position %d of the full sequence", i, off+i), det)
 						c.Evals(evals)
 						return
